@@ -8,7 +8,9 @@ from fractions import Fraction
 
 from vf import refmodel
 
-SUITE = "/repo/json/tests"
+from vf.harness import REPO
+
+SUITE = REPO + "/json/tests"
 OPTIONAL = ("bignum", "zeroTerminatedFloats", "float-overflow")
 SKIP_FILES = ("refRemote.json", "format.json", "infinite-loop-detection.json")
 ECMA = ("\\d", "\\w", "\\s", "\\D", "\\W", "\\S", "\\c", "\\p")
